@@ -2,7 +2,7 @@
 //verif:use store,corehelp
 //verif:assume end-to-end update through the real code: two bundles uploaded with implUpload into one repository (real cafs, BLAKE2b as injective UF), the first downloaded with Publish into a local store, then Update(remote second bundle, local copy) as the CLI calls it; compared with a fresh Publish of the second bundle
 //verif:assume trees over the files a, b, c: each absent or present with one of two contents in either bundle (a and b; c only in thorough), so identical trees under different bundle ids, empty trees, disjoint trees and same-path-different-content all occur
-//verif:cover VerifC05UpdateE2E identical-trees-different-ids empty-target empty-source changed-content
+//verif:cover VerifC05UpdateE2E identical-trees-different-ids empty-target empty-source changed-content nested-metadata-lookalike local-delete-fails
 package core
 
 import (
@@ -20,6 +20,11 @@ func VerifC05UpdateE2E() {
 	ctx := context.Background()
 	vAssert(CreateRepo(model.RepoDescriptor{Name: "r", Description: "d", Contributor: model.Contributor{Name: "n", Email: "e@x.io"}}, stores) == nil, "create-repo")
 	names := []string{"a", "d/b"}
+	if vChoose("nestedDatamonName", 2) == 1 {
+		// a user file that merely looks like bundle metadata, below a nested .datamon directory
+		names[1] = "conf/.datamon/v1-bundle-files-0.yaml"
+		vCover("nested-metadata-lookalike")
+	}
 	if vThorough() {
 		names = append(names, "c")
 	}
@@ -77,7 +82,32 @@ func VerifC05UpdateE2E() {
 	// update it to the second bundle, the way the CLI does
 	localBundle := NewBundle(ConsumableStore(local), Logger(zap.NewNop()))
 	remoteBundle := NewBundle(Repo("r"), ContextStores(stores), BundleID(b2.BundleID), Logger(zap.NewNop()), ConcurrentFileDownloads(2), ConcurrentFilelistDownloads(2))
+	removed := ""
+	for _, n := range names {
+		if _, in1 := t1[n]; in1 {
+			if _, in2 := t2[n]; !in2 {
+				removed = n
+			}
+		}
+	}
+	deleteFails := removed != "" && vChoose("localDeleteFails", 2) == 1
+	if deleteFails {
+		// the local store refuses to remove a file the target bundle no longer has (e.g. permission denied)
+		vCover("local-delete-fails")
+		local.fail = func(op, key string) error {
+			if op == "delete" && key == removed {
+				return errVFault
+			}
+			return nil
+		}
+	}
 	err := Update(ctx, remoteBundle, localBundle)
+	local.fail = nil
+	if deleteFails {
+		_, still := local.data[removed]
+		vAssert(err != nil || !still, "update-that-could-not-remove-a-file-reports-failure")
+		return
+	}
 	vAssert(err == nil, "update-succeeds")
 	// reference: a fresh download of the second bundle
 	fresh := newVStore("fresh")
